@@ -8,7 +8,8 @@ RULE = ("(a) all version maps over clean directory keys drawn from {'', foo, foo
         "RegoVersionFromVersionsMap (12 repetitions each to expose map-order dependence); (b) real temporary trees with "
         "project.rego-version, project.roots (string or with rego-version) and .manifest files carrying versions {0,1,unset}, "
         "files with v0-only / v1-only / ambiguous syntax parsed through InputFromPaths addressed relatively and absolutely. "
-        "non-trivial = some configured directory contains the file; distinct = (map/tree, file, spelling)")
+        "non-trivial = some configured directory contains the file; distinct = (map/tree, file, spelling)"
+        ' Also: each file named from its own directory, from the parent of the root and with ./; the statement evaluated directly (expected_version); the real language server asked for the version of each document (percent-encoded directory names).')
 EXHAUSTIVE = True
 TRUSTED = ["OPA parser decides what parses under v0/v1 (Env side); path.Join/filepath.Dir cleaning on clean paths",
            "the language server and `regal fix` call the same lookup with their own path forms (sampled for lint only)"]
